@@ -130,8 +130,12 @@ class Exec:
                     res = "TypeError"
                 except Exception as e:  # noqa: BLE001
                     res = "raised:" + type(e).__name__
-            await vclock.quiescent()
+            if obs.get("settle", True):
+                await vclock.quiescent()        # otherwise the next dispatch follows at once: the receiving tasks have not run yet
             return (res, sum(1 for x in wl if issubclass(x.category, SignalQueueFull)))
+        if a == "Settle":
+            await vclock.quiescent()
+            return None
         if a == "Consume":
             w = self.workers[obs["s"]]
             w["result"] = None
@@ -404,7 +408,27 @@ def check(prop: str, tier: str, seed: int) -> core.Report:
         raise core.MachineryError(f"MC_Signals dump has {len(g.states)} states, TLC reports {dump.distinct}")
     rep.add_tlc(dump, "MC_Signals dump: every transition of the bounded graph exported")
     stats, mism = graphwalk.walk(g, make, seed, backends=vclock.BACKENDS)
-    rep.extra["replay"] = dict(stats, states=len(g.states))
+    # bursts: dispatches that follow each other without the receiving tasks getting to run (2 channels, 2 subscribers, 2 events; thorough: 3)
+    resb = tlc.run("MC_Signals", "MC_Signals_burst_props", workers=core.NCPU, big=True, heap="16g", timeout=3000, check=False)
+    if resb.error or resb.invariant_violated or resb.property_violated:
+        raise core.MachineryError(f"Signals.tla (bursts) violates its own properties: {resb.invariant_violated or resb.error or 'Isolation'}\n{resb.out[-1500:]}")
+    rep.add_tlc(resb, "MC_Signals_burst_props (bursts of dispatches; 2 channels, 2 subscribers, 3 events, queue sizes 0-1): the same properties and TransitOnlyInBursts")
+    cfgb = open(tlc.SPECS / "MC_Signals_burst.cfg").read()
+    if tier == "thorough":
+        cfgb = cfgb.replace("MaxEv = 2", "MaxEv = 3").replace("AbandonSubs = {}", "AbandonSubs = {1}")
+    dumpb = tlc.run("MC_Signals", cfg_text=cfgb, workers=1, heap="12g", timeout=6000, check=False)
+    if dumpb.error:
+        raise core.MachineryError(f"MC_Signals burst dump: {dumpb.error}\n{dumpb.out[-1500:]}")
+    gb = graphwalk.load(dumpb.out)
+    if len(gb.states) != dumpb.distinct:
+        raise core.MachineryError(f"MC_Signals burst dump has {len(gb.states)} states, TLC reports {dumpb.distinct}")
+    rep.add_tlc(dumpb, "MC_Signals burst dump: every transition of the bounded graph with unsettled dispatches exported")
+    statsb, mismb = graphwalk.walk(gb, make, seed + 1, backends=vclock.BACKENDS)
+    rep.extra["replay_bursts"] = dict(statsb, states=len(gb.states), unsettled_dispatches=sum(1 for st in gb.states.values() for o, _ in st["edges"] if o.get("a") == "Dispatch" and not o.get("settle", True)))
+    for k in ("tours", "edges", "prefix_steps", "unexamined_transitions"):
+        stats[k] = stats.get(k, 0) + statsb.get(k, 0)
+    mism = list(mism) + list(mismb)
+    rep.extra["replay"] = dict(stats, states=len(g.states) + len(gb.states))
     rep.traces_validated = stats["tours"]
     rep.evaluations = stats["edges"] + stats["prefix_steps"]
     rep.distinct_nontrivial = stats["edges"]
@@ -419,7 +443,8 @@ def check(prop: str, tier: str, seed: int) -> core.Report:
     rep.extra["differences_attributed_to_other_properties"] = other
     k = g.order[min(len(g.order) - 1, 500)]
     rep.samples = [{"state": g.states[k]["enc"], "transitions_out": [e[0] for e in g.states[k]["edges"][:3]]}]
-    rep.rule = ("every transition of the bounded Signals graph (subscribe / wait_event / dispatch incl. wrong event class / consume / give up waiting / leave over 3 channels "
+    rep.rule = ("every transition of two bounded Signals graphs (subscribe / wait_event / a list with an unbound signal / dispatch incl. wrong event class / consume / give up waiting / leave over 3 channels; "
+                "and, over 2 channels, bursts of dispatches between which the receiving tasks do not run) "
                 "of 2 instances, 2 subscribers, filters, queue sizes 0-1) executed once against real signals with one task per subscriber, on asyncio and "
                 "trio (partitions alternate); after each step the delivered sequences of all subscribers (event number, channel from source/topic), consume "
                 "results, dispatch results and SignalQueueFull counts are compared; distinct_nontrivial = distinct transitions examined")
